@@ -95,6 +95,20 @@ def cases(tier):
                            {"variant": "fried", "nx": nx, "depth": f, "atm": atm}, False)
 
 
+    # Configurations on which the unchanged library refuses to construct (Cholesky of an ill-conditioned
+    # stencil covariance raises LinAlgError): outside the property ("for which construction succeeds") as long
+    # as they are refused - but if a changed library constructs them anyway, the identities are judged.
+    for atm in ILL_CONDITIONED:
+        tag = "ps=%g,r0=%g,L0=%g" % atm
+        for nx in (6, 8):
+            for nc in (2, 3):
+                yield Case("vk:ill:nx=%d:nc=%d:%s" % (nx, nc, tag), {"variant": "vk", "nx": nx, "depth": nc, "atm": atm}, False)
+        yield Case("fried:ill:nx=9:f=2:%s" % tag, {"variant": "fried", "nx": 9, "depth": 2, "atm": atm}, False)
+
+
+ILL_CONDITIONED = [(0.01, 0.2, 1e4), (0.001, 0.2, 1e3), (0.0005, 0.1, 1e3), (0.002, 0.2, 300.0)]
+
+
 def setup(tier):
     vk_cov.selftest()        # reference model vs. its own power spectrum (scipy only, no numba)
 
